@@ -525,6 +525,44 @@ def c15_9(ck, prog, rid='C15.9'):
         raise AnalysisBroken('unix_fd_negotiated setters not found (%d)' % sites)
 
 
+def c15_10(ck, prog, rid='C15.10'):
+    r = ck.rule(rid, 'a message object taken from the cache starts with the bookkeeping of a fresh one: on every successful '
+                'exit of dbus_message_new_empty_header the counts of descriptors held and of array slots allocated, the '
+                'counter deltas, the lock flag and the change stamp have been reset', 'TS',
+                breaks='a recycled message keeps a stale "slots allocated" count while its descriptor array was freed by '
+                'the parser: appending a descriptor skips the allocation and fails (or writes through a NULL array) only '
+                'for messages with that history', floor=1)
+    fn = prog.fn('dbus_message_new_empty_header', MSG)
+    REQUIRED = {'n_unix_fds', 'n_unix_fds_allocated', 'unix_fd_counter_delta', 'locked', 'counters',
+                'size_counter_delta', 'changed_stamp'}
+    present = {lhs['field'] for b, i, ev in fn.events() for lhs, how, rhs in written_lvalues(ev)
+               if is_member(lhs, None, 'DBusMessage')}
+    required = REQUIRED & (present | {'n_unix_fds_allocated', 'n_unix_fds'})
+    if 'n_unix_fds' not in present:
+        r.skip('descriptor passing is not compiled in this configuration')
+        return
+
+    def on_event(user, ev, ctx):
+        for lhs, how, rhs in written_lvalues(ev):
+            if is_member(lhs, None, 'DBusMessage') and how == '=' and lhs['field'] in REQUIRED:
+                return user | {lhs['field']}
+        return user
+
+    def on_exit(user, ctx, ret, ev):
+        if ctx.ret_status(ret) == 'fail':
+            return
+        missing = required - user
+        if missing:
+            ctx.report('a message can be handed out with %s not reset' % ', '.join(sorted(missing)), ev['line'],
+                       key=('stale', tuple(sorted(missing))))
+    ex = Explorer(fn, init=frozenset(), on_event=on_event, on_exit=on_exit, track='auto',
+                  calls={'dbus_message_get_cached'}, cap=200000).run()
+    if ex.reports:
+        r.from_reports(ex.reports, keyfn=lambda k, rep: 'new_empty_header:%s' % ','.join(k[1]))
+    else:
+        r.ok('new_empty_header:bookkeeping-reset', {'fields': sorted(required)})
+
+
 def run(ck):
     ck.explanation = (
         'Static rules over dbus-sysdeps-unix.c, dbus-message.c, dbus-transport-socket.c, dbus-connection.c, '
@@ -545,3 +583,4 @@ def run(ck):
         from rules.C11 import c11_6
         c11_6(ck, prog, 'C15.8')
         c15_9(ck, prog)
+        c15_10(ck, prog)
